@@ -170,8 +170,22 @@ mod tok {
                 _ => Result::Err(TErr("trailing elements in sequence".into())),
             }
         }
+        /// like the non-self-describing binary formats, the carrier keeps a length-prefixed `seq` / plain
+        /// `tuple` apart from a tuple struct: what was written as a tuple struct must be asked for as one
+        fn deserialize_seq<V: Visitor<'de>>(self, visitor: V) -> Result<V::Value, TErr> {
+            match self.toks.get(self.pos) {
+                Some(Tok::TupleStruct(_, _)) => Result::Err(TErr("the type asked for a sequence, the stream holds a tuple struct".into())),
+                _ => self.deserialize_any(visitor),
+            }
+        }
+        fn deserialize_tuple<V: Visitor<'de>>(self, _len: usize, visitor: V) -> Result<V::Value, TErr> {
+            match self.toks.get(self.pos) {
+                Some(Tok::TupleStruct(_, _)) => Result::Err(TErr("the type asked for a tuple, the stream holds a tuple struct".into())),
+                _ => self.deserialize_any(visitor),
+            }
+        }
         serde::forward_to_deserialize_any! {
-            bool i8 i16 i32 i64 i128 u8 u16 u32 u64 u128 f32 f64 char str string bytes byte_buf option unit unit_struct newtype_struct seq tuple
+            bool i8 i16 i32 i64 i128 u8 u16 u32 u64 u128 f32 f64 char str string bytes byte_buf option unit unit_struct newtype_struct
             map struct enum identifier ignored_any
         }
     }
@@ -460,6 +474,23 @@ mod run {
             false
         }
     }
+    // the same probe for NoUninit (what `bytes_of` needs): a type with padding bytes must not claim it
+    pub trait IsNoUninitYes {
+        fn is_no_uninit(&self) -> bool;
+    }
+    impl<T: bytemuck::NoUninit> IsNoUninitYes for Probe<T> {
+        fn is_no_uninit(&self) -> bool {
+            true
+        }
+    }
+    pub trait IsNoUninitNo {
+        fn is_no_uninit(&self) -> bool;
+    }
+    impl<T> IsNoUninitNo for &Probe<T> {
+        fn is_no_uninit(&self) -> bool {
+            false
+        }
+    }
     fn elem_bytes<S: Sc>(l: &[S]) -> Vec<u8> {
         let w = std::mem::size_of::<S>();
         l.iter().flat_map(|x| x.bits().to_ne_bytes()[..w].to_vec()).collect()
@@ -472,6 +503,7 @@ mod run {
             let es = std::mem::size_of::<<T as Lanes>::S>();
             let padded = std::mem::size_of::<T>() != n * es;
             let is_pod = (&Probe::<T>(std::marker::PhantomData)).is_pod();
+            let is_no_uninit = (&Probe::<T>(std::marker::PhantomData)).is_no_uninit();
             $rep.sweep(&format!("{tn}/bytemuck/tag rounds"), 6, |idx, acc| {
                 let lanes: Vec<<T as Lanes>::S> = (0..n).map(|i| <<T as Lanes>::S as Sc>::tag(i + idx as usize * 7)).collect();
                 let v = <T as Lanes>::mk(&lanes);
@@ -479,6 +511,10 @@ mod run {
                 // `only types without padding are Pod`: Pod implies no padding (the converse is not claimed)
                 if is_pod && padded {
                     acc.fail(&format!("{tn}::Pod"), format!("Pod = {is_pod} but size_of = {} vs {} element bytes (only types without padding may be Pod)", std::mem::size_of::<T>(), n * es));
+                }
+                // ... nor may it expose its bytes through NoUninit (`bytes_of` would hand out the padding)
+                if is_no_uninit && padded {
+                    acc.fail(&format!("{tn}::NoUninit"), format!("NoUninit is implemented although size_of = {} vs {} element bytes: the byte image would include padding", std::mem::size_of::<T>(), n * es));
                 }
                 // all-zero bytes are the zero value
                 let z: T = bytemuck::Zeroable::zeroed();
